@@ -33,7 +33,7 @@ Next ==
 Spec == Init /\ [][Next]_g
 
 \* for -simulate: one random choice of the parameters per element kind (large documents, all menus)
-R1(S) == {RandomElement(S)}
+R1(S) == IF S = {} THEN {} ELSE {RandomElement(S)}
 NextSim ==
    \/ /\ g.cur = "none"
       /\ \E lay \in R1(LayoutsF), how \in R1(Hows), nd \in R1(Descs) : g' = AddFeature(g, lay, how, nd)
